@@ -87,6 +87,9 @@ type Cell struct {
 func (ex *Exec) newCell(t types.Type) *Cell {
 	ex.cellSeq++
 	c := &Cell{T: t, id: ex.cellSeq}
+	if n, ok := t.(*types.Named); ok && n.Obj().Name() == "Raft" && n.Obj().Pkg() != nil && n.Obj().Pkg().Path() == raftPath {
+		ex.raftCells++
+	}
 	switch u := t.Underlying().(type) {
 	case *types.Struct:
 		c.Kids = make([]*Cell, u.NumFields())
